@@ -53,6 +53,7 @@ let pool_c = mk_ks "x" "102ff"
 let pool_h = ref { rh = (fun _ -> { r_keyed = false; r_inner = O; r_api = false; r_rev = O }); mh = (fun _ -> { m_keys = []; m_ctx = None });
                    next_r = O; next_m = O; pool = [] }
 let pool_keyed : (int, bool) Hashtbl.t = Hashtbl.create 64
+let pool_v1 = ref false
 let keys_of s = if s = "-" then [] else List.map bytes_of_hex (String.split_on_char ',' s)
 let keys_str l = if l = [] then "-" else String.concat "," (List.map hex_of_bytes l)
 let kv f = match String.index_opt f '=' with Some i -> (String.sub f 0 i, String.sub f (i + 1) (String.length f - i - 1)) | None -> (f, "")
@@ -60,7 +61,7 @@ let b01 b = if b then "1" else "0"
 (* returns (cases, mismatch description list) *)
 let pool_line fields : string list =
   match fields with
-  | "begin" :: _ -> Hashtbl.reset pool_keyed;
+  | "begin" :: rest -> Hashtbl.reset pool_keyed; pool_v1 := (List.length rest >= 3 && List.nth rest 2 = "v1");
       pool_h := { !pool_h with rh = (fun _ -> { r_keyed = false; r_inner = O; r_api = false; r_rev = O }); mh = (fun _ -> { m_keys = []; m_ctx = None }); next_r = O; next_m = O; pool = [] }; []
   | "caller" :: i :: _name :: keyed :: keys :: _ ->
       let a = nat_of_int (int_of_string i) in
@@ -87,12 +88,16 @@ let pool_line fields : string list =
        | Some i ->
          let keyed = (try Hashtbl.find pool_keyed (int_of_string a_s) with Not_found -> true) in
          let had_pred = (h.mh ((h.rh a).r_inner)).m_ctx <> None in
-         let ((wk, wc), h') = send real pool_c a (nat_of_int i) h in
+         let answered = g "dec" <> "-1" in
+         let logical = (h.mh ((h.rh a).r_inner)).m_keys in
+         let ((wk, wc), h') = sendx real pool_c a (nat_of_int i) answered h in
          pool_h := h';
-         let dec_pred = (match h'.pool with r :: _ -> int_of_nat r | [] -> -1) in
+         (* codec v1 leaves keys as they are: the model's encoding is replaced by the identity *)
+         let wk = if !pool_v1 then logical else wk in
+         let dec_pred = if not answered then -1 else (match h'.pool with r :: _ -> int_of_nat r | [] -> -1) in
          let ca = h'.rh a in
          let exp = [ ("shared", b01 (not keyed)); ("dec", string_of_int dec_pred); ("hadctx", b01 had_pred);
-                     ("wire", keys_str wk); ("ctx", (match wc with Some true -> "v2" | Some false -> "v1" | None -> "none"));
+                     ("wire", keys_str wk); ("ctx", (match wc with Some true -> (if !pool_v1 then "v1" else "v2") | Some false -> "unset" | None -> "none"));
                      ("callerkeys", keys_str (h'.mh ca.r_inner).m_keys); ("callersame", b01 (int_of_nat ca.r_inner = int_of_string a_s));
                      ("callerapi", b01 ca.r_api) ] in
          List.fold_left (fun acc (k, v) ->
